@@ -401,15 +401,30 @@ CLAIMED = {
     "C11": ("Translator (the add/dbl templates instantiated for (ep2, fp2) regenerated on every run and checked by rfl to be the same terms as "
             "the (ep, fp) instantiation, so the formula theorems over an arbitrary field apply) + abstract-group multiplication theorems of C03 "
             "+ correspondence on both pairing-friendly curves of the configuration against the affine law over Fp2 built from the generic tower spec",
-            "Proved in Lean (24 theorems): the generated ep2 add/dbl code (affine, homogeneous projective, Jacobian, mixed) is term-identical to "
-            "the ep code, whose formulas are proved to be the chord-and-tangent law over any field of characteristic != 2 (exceptional cases "
-            "stated); the multiplication loops shared with the prime curve return k*Q in any commutative group killed by r; an additive "
-            "endomorphism is determined on the cyclic group by its value on the generator; h*P and its multiples lie in the r-torsion when h*r "
-            "kills the twist. Tie: ~560 lines per quick run on BN-P256 and SM9-P256 (thorough: also BLS12-381): generated ep2 formulas executed "
-            "over the tower arithmetic vs implementation vs affine law; every ep2_mul_* / fix / sim / lot variant by name x every scalar class "
-            "vs [k]Q; ep2_frb(Q,i) = [p^i]Q on subgroup points; cofactor map on twist points outside the subgroup; twist parameters reported by "
-            "the library checked (qnr non-residue, G on twist, r*G = O, Hasse). PARTIAL: GLS recodings, comb methods and additivity of the "
-            "Frobenius map are compared per line, not modelled; ep3/ep4/ep8 (other field sizes) not covered.",
+            "Proved in Lean (44 theorems audited over Props/C11 and the lemma modules Lemmas/Ep2Formulas, Lemmas/Ep2Mul): the generated ep2 add/dbl code (affine, "
+            "homogeneous projective, Jacobian, mixed) is term-identical to the ep code, whose formulas are proved to be the chord-and-tangent law "
+            "over any field of characteristic != 2 (exceptional cases stated). CLASS A (a Lean model mirroring the C loop, proved = k*Q resp. "
+            "k*P + m*Q resp. sum k_i*P_i for every integer scalar in any commutative group killed by r, and executed by the driver on every "
+            "e2m / e2s / e2l / e2d line, model column = the model's prediction incl. predicted errors): ep2_mul_basic / big / dig, ep2_mul_slide "
+            "(|k| not reduced modulo r, capacity RLC_FP_BITS+1), ep2_mul_monty, ep2_mul_gen / fix / fix_combs (single comb incl. table "
+            "construction), fix_combd (two tables), fix_basic, fix_lwnaf, ep2_mul_sim_trick, sim_joint, sim_dig, and the Frobenius (GLS) paths: "
+            "bn_rec_frb BN branch in integer form (rec_frb_bn_congr: sub-scalars recombine to k mod r for any rounding when the lattice "
+            "columns annihilate (1, l, l^2, l^3)), ep2_mul_gls_imp = ep2_mul_lwnaf = ep2_mul (ep2_mul_gls_correct: four tables, psi-images "
+            "negated on sign change, four interleaved width-w NAFs), ep2_mul_sim_endom = sim_inter / sim / sim_gen / the two ep2_mul calls of "
+            "sim_basic (ep2_mul_sim_endom_correct: eight binary NAFs), ep2_mul_sim_lot for n <= 10 (executed; theorem = "
+            "C03.mul_sim_lot_plain_correct over the 4n points + gls_sum_zsmul). Hypothesis of the GLS theorems: psi(Q) = [p mod r]Q, checked by "
+            "the driver on the generator together with the four lattice columns (endo_is_scalar_on_cyclic carries it to every multiple). "
+            "An additive endomorphism is determined on the cyclic group by its value on the generator; h*P and its multiples lie in the r-torsion "
+            "when h*r kills the twist. Tie: ~890 lines per quick run on the two BN curves of the configuration (thorough: also BLS12-381): "
+            "generated ep2 formulas executed over the tower arithmetic vs implementation vs affine law; every ep2_mul_* / fix / sim / lot variant "
+            "by name x every scalar class, Frobenius-structured scalars for one-, two- and many-point routines, identity base for every table "
+            "form, sliding window at its buffer capacity; ep2_frb(Q,i) = [p^i]Q on subgroup points; cofactor map on twist points outside the "
+            "subgroup; twist parameters reported by the library checked (qnr non-residue, G on twist, r*G = O, Hasse, psi(G) = [p mod r]G, "
+            "lattice columns); op e2frb presents the bn_rec_frb decomposition itself (model recFrbBN; a different valid decomposition is "
+            "invisible in k*Q). Modelled and executed but NOT proved: the bucket branch of ep2_mul_sim_lot (n > 10, simLotBucket4). CLASS C "
+            "(compared with the specification per line only): ep2_mul_lwreg (ep2_mul_reg_gls: bn_rec_sac recoding not modelled), "
+            "bn_rec_frb for non-BN families (digits in base |x|: modelled and "
+            "executed in the thorough tier, not proved), ep2_mul_cof, additivity of ep2_frb. ep3/ep4/ep8 (other field sizes) not covered.",
             "Trusted: Lean kernel; tools/translate.py; Spec/Tower.lean + Spec/CurveX.lean as the definition of Fp2 and of the group law; the "
             "harness chooses the twist type (D/M) under which psi(G) = [p]G because the library exposes no per-curve selector; known findings "
             "F31 (ep2_mul_slide refuses scalars longer than the field), F32 (identity inside a simultaneous table).",
